@@ -1,12 +1,10 @@
 /-
-Driver: chain scripts (C13, C14, C17).
+Driver: chain scripts (C13, C14, C17) — implementation model run and specification verdicts.
 -/
 import OwlModel.Driver.Ops2
 
 namespace Owl.Drv
 open Owl
-
-def opChain (_args : List String) (_impl : String) : String × String := ("~", "-")
 
 /-- perft on the implementation model's legal generator -/
 def perftM : Nat → Impl.Board → Nat
@@ -14,5 +12,353 @@ def perftM : Nat → Impl.Board → Nat
   | n+1, b => match Impl.legalGen? .all b with
     | none => 0
     | some ms => ms.foldl (fun acc m => acc + perftM n (Impl.makeMove b m).1) 0
+
+def underscored (s : String) : String := s.map fun c => if c = ' ' then '_' else c
+
+/-- split tokens at `;` -/
+def splitSteps (toks : List String) : List (List String) :=
+  let (cur, acc) := toks.foldl (fun (st : List String × List (List String)) t =>
+    if t = ";" then ([], st.1.reverse :: st.2) else (t :: st.1, st.2)) ([], [])
+  ((cur.reverse :: acc).reverse).filter (fun l => !l.isEmpty)
+
+/-! ### implementation model -/
+
+structure MState where
+  cur : Impl.Chain
+  other : Option Impl.Chain
+
+def stM (c : Impl.Chain) : String :=
+  s!"len={c.stack.length} out={fmtOutcome c.outcome} last={underscored (fmtFull c.board)} start={underscored (fmtRaw c.start)} moves={fmtMovesInOrder (c.stack.map (·.1))}"
+
+def pushResM (st : MState) (r : Res Impl.MakeErr Impl.Chain) : MState × String :=
+  match r with
+  | .ok ch => ({ st with cur := ch }, "ok")
+  | .err e => (st, "err:" ++ fmtMakeErr e)
+  | .trap _ => (st, "panic")
+
+def filterOfStr (s : String) : Option Impl.OutcomeFilter :=
+  if s = "f" then some .force else if s = "s" then some .strict else if s = "r" then some .relaxed else none
+
+def numPolicyOfStr (s : String) : Option Impl.NumberPolicy :=
+  if s = "o" then some .omit else if s = "b" then some .fromBoard
+  else if s.startsWith "c" then (sdrop s 1).toNat?.map .custom else none
+
+def styleOfStr (s : String) : Option Impl.MoveStyle :=
+  if s = "s" then some .san else if s = "u" then some .sanUtf8 else if s = "U" then some .uci else none
+
+def walkM (ch : Impl.Chain) (letters : String) : String :=
+  let rec go (ls : List Char) (w : Impl.Walker) (acc : List String) : Option (List String) :=
+    match ls with
+    | [] => some acc.reverse
+    | 'n' :: rest =>
+      (match w.next? with
+       | none => none
+       | some (w', none) => go rest w' ("none" :: acc)
+       | some (w', some (b, m)) => go rest w' ((underscored (fmtFull b) ++ "/" ++ fmtMove m) :: acc))
+    | 'p' :: rest =>
+      (match w.prev? with
+       | none => none
+       | some (w', none) => go rest w' ("none" :: acc)
+       | some (w', some (b, m)) => go rest w' ((underscored (fmtFull b) ++ "/" ++ fmtMove m) :: acc))
+    | 's' :: rest => go rest w.toStart ("." :: acc)
+    | 'e' :: rest => go rest w.toEnd ("." :: acc)
+    | _ => none
+  match go letters.toList ch.walk [] with
+  | none => "panic"
+  | some obs => (if obs.isEmpty then "-" else String.intercalate "," obs) ++ " unch=1"
+
+def stepM (st : MState) (step : List String) : MState × String :=
+  let ch := st.cur
+  match step with
+  | ["pm", mv] =>
+    if ch.isFinished then (st, "skip") else
+    (match parseMove mv with
+     | none => (st, "badstep")
+     | some m => if !m.isWellFormed then (st, "notwf") else pushResM st (ch.pushWith (Impl.makeMoveLike ch.board m)))
+  | ["pU", s] =>
+    if ch.isFinished then (st, "skip") else
+    (match parseStr s with
+     | none => (st, "badstep")
+     | some t => match Impl.parseUci t with
+       | .ok u => pushResM st (ch.pushWith (Impl.makeUciMove ch.board u))
+       | .err _ => (st, "parse-err") | .trap _ => (st, "panic"))
+  | ["pu", s] =>
+    if ch.isFinished then (st, "skip") else
+    (match parseStr s with
+     | none => (st, "badstep")
+     | some t => pushResM st (ch.pushWith (Impl.makeUciStr ch.board t)))
+  | ["pS", s] =>
+    if ch.isFinished then (st, "skip") else
+    (match parseStr s with
+     | none => (st, "badstep")
+     | some t => match Impl.parseSan t with
+       | .ok sm => pushResM st (ch.pushWith (Impl.makeSanMove ch.board sm))
+       | .err _ => (st, "parse-err") | .trap _ => (st, "panic"))
+  | ["ps", s] =>
+    if ch.isFinished then (st, "skip") else
+    (match parseStr s with
+     | none => (st, "badstep")
+     | some t => pushResM st (ch.pushWith (Impl.makeSanStr ch.board t)))
+  | ["pl", s] =>
+    if ch.isFinished then (st, "skip") else
+    (match parseStr s with
+     | none => (st, "badstep")
+     | some t =>
+       let (ch', fail) := ch.pushUciList t
+       match fail with
+       | none => ({ st with cur := ch' }, "ok")
+       | some (pos, .err e) => ({ st with cur := ch' }, s!"err@{pos}:" ++ fmtMakeErr e)
+       | some (_, _) => (st, "panic"))
+  | ["pop"] =>
+    (match ch.pop? with
+     | none => (st, "panic")
+     | some (ch', none) => ({ st with cur := ch' }, "none")
+     | some (ch', some m) => ({ st with cur := ch' }, fmtMove m))
+  | ["so", o] =>
+    if ch.isFinished then (st, "skip") else
+    (match parseOutcome o with
+     | some (some oc) => ({ st with cur := { ch with outcome := some oc } }, "ok")
+     | _ => (st, "badstep"))
+  | ["co"] => ({ st with cur := { ch with outcome := none } }, "ok")
+  | ["ro", o] =>
+    (match parseOutcome o with
+     | some oc => ({ st with cur := { ch with outcome := oc } }, "ok")
+     | none => (st, "badstep"))
+  | ["calc"] => (st, match ch.calcOutcome? with | some o => fmtOutcome o | none => "panic")
+  | ["auto", f] =>
+    if ch.isFinished then (st, "skip") else
+    (match filterOfStr f with
+     | none => (st, "badstep")
+     | some f => match ch.setAutoOutcome? f with
+       | none => (st, "panic")
+       | some ch' => ({ st with cur := ch' }, fmtOutcome ch'.outcome))
+  | ["st"] => (st, stM ch)
+  | ["uci"] => (st, fmtStr ch.uciList)
+  | ["rebuild"] =>
+    (match Impl.validate ch.start with
+     | .ok b0 =>
+       let (ch', fail) := (Impl.Chain.new b0).pushUciList ch.uciList
+       (match fail with
+        | none => (st, "eq=" ++ bool01 (ch'.beq { ch with outcome := none }))
+        | some (pos, .err e) => (st, s!"err@{pos}:" ++ fmtMakeErr e)
+        | some (_, _) => (st, "panic"))
+     | .err e => (st, "err:start:" ++ fmtValidateErr e)
+     | .trap _ => (st, "panic"))
+  | ["sty", n, s, g] =>
+    (match numPolicyOfStr n, styleOfStr s with
+     | some n, some s =>
+       (match ch.styled? n s (g == "s") with
+        | some t => (st, fmtStr t)
+        | none => (st, "panic"))
+     | _, _ => (st, "badstep"))
+  | ["w", letters] => (st, walkM ch letters)
+  | ["clone"] => ({ st with other := some ch }, "ok")
+  | ["swap"] =>
+    (match st.other with
+     | some o => ({ cur := o, other := some ch }, "ok")
+     | none => (st, "n/a"))
+  | ["eq"] =>
+    (match st.other with
+     | some o => (st, if ch.beq o then "==" else "!=")
+     | none => (st, "n/a"))
+  | _ => (st, "badstep")
+
+def chainM (raw : Impl.RawBoard) (steps : List (List String)) : String :=
+  match implBoard? raw with
+  | none => "invalid"
+  | some b =>
+    if steps.isEmpty then "-" else
+    let (_, obs) := steps.foldl (fun (acc : MState × List String) step =>
+      let (st', o) := stepM acc.1 step
+      (st', o :: acc.2)) ({ cur := Impl.Chain.new b, other := none }, [])
+    String.intercalate ";" obs.reverse
+
+/-! ### specification: a chain is (start, accepted moves, stored outcome) -/
+
+structure SChain where
+  start : Spec.Pos
+  moves : List Spec.Move
+  outcome : Option Impl.Outcome     -- a stored label; only its winner matters to the printer
+
+structure SState where
+  cur : SChain
+  other : Option SChain
+
+def SChain.pos (c : SChain) : Spec.Pos := Spec.replay c.start c.moves
+
+def stS (c : SChain) : String :=
+  s!"len={c.moves.length} out={fmtOutcome c.outcome} last={underscored (fullOfPos c.pos)} start={underscored (fmtRaw (conc c.start))} moves={fmtMovesInOrder (c.moves.map concMove)}"
+
+def specFilter (f : Impl.OutcomeFilter) : Spec.Filter :=
+  match f with | .force => .force | .strict => .strict | .relaxed => .relaxed
+
+def specOutcomeOfStr (s : String) : Option (Option Spec.Outcome) :=
+  [none, some (Spec.Outcome.checkmate .white), some (.checkmate .black), some .stalemate, some .insufficient,
+   some .moves75, some .moves50, some .repeat5, some .repeat3].find? fun o => fmtSpecOutcome o == s
+
+def implOutcomeOfSpec : Spec.Outcome → Impl.Outcome
+  | .checkmate c => .win c .checkmate | .stalemate => .draw .stalemate | .insufficient => .draw .insufficientMaterial
+  | .moves75 => .draw .moves75 | .moves50 => .draw .moves50 | .repeat5 => .draw .repeat5 | .repeat3 => .draw .repeat3
+
+def winnerOf : Option Impl.Outcome → Option (Option Color)
+  | none => none
+  | some (.win c _) => some (some c)
+  | some (.draw _) => some none
+
+/-- verdict on a push: `d` = the legal moves the pushed value denotes -/
+def pushS (st : SState) (d : List Spec.Move) (impl : String) (allowParseErr : Bool) : SState × String :=
+  match d with
+  | [m] =>
+    if impl == "ok" then ({ st with cur := { st.cur with moves := st.cur.moves ++ [m] } }, ok)
+    else (st, bad "a legal move was refused")
+  | _ =>
+    if impl.startsWith "err" || (allowParseErr && impl == "parse-err") then (st, ok)
+    else (st, bad s!"push accepted although the value denotes {d.length} legal moves")
+
+def walkS (c : SChain) (letters : String) : String :=
+  let n := c.moves.length
+  let obsAt (i : Nat) : String :=
+    match c.moves[i]? with
+    | some m => underscored (fullOfPos (Spec.replay c.start (c.moves.take i))) ++ "/" ++ fmtMove (concMove m)
+    | none => "none"
+  let (_, acc) := letters.toList.foldl (fun (st : Nat × List String) ch =>
+    let pos := st.1
+    match ch with
+    | 'n' => if pos = n then (pos, "none" :: st.2) else (pos + 1, obsAt pos :: st.2)
+    | 'p' => if pos = 0 then (pos, "none" :: st.2) else (pos - 1, obsAt (pos - 1) :: st.2)
+    | 's' => (0, "." :: st.2)
+    | 'e' => (n, "." :: st.2)
+    | _ => st) (0, [])
+  (if acc.isEmpty then "-" else String.intercalate "," acc.reverse) ++ " unch=1"
+
+def stepS (st : SState) (step : List String) (impl : String) : SState × String :=
+  let ch := st.cur
+  let p := ch.pos
+  let finished := ch.outcome.isSome
+  if impl == "panic" then (st, bad "panic") else
+  match step with
+  | ["pm", mv] =>
+    if finished then (st, expect "skip" impl) else
+    (match parseMove mv with
+     | none => (st, "-")
+     | some m =>
+       if !Spec.geomPossible m.kind (absCell m.cell) m.src m.dst then (st, expect "notwf" impl) else
+       match absMove m with
+       | some sm => pushS st (if (Spec.legalMoves p).contains sm then [sm] else []) impl false
+       | none => pushS st [] impl false)
+  | ["pU", s] | ["pu", s] =>
+    if finished then (st, expect "skip" impl) else
+    (match parseStr s with
+     | none => (st, "-")
+     | some t =>
+       if t == [48, 48, 48, 48] then pushS st [] impl false
+       else if !uciLanguage t then
+         (if step.head? == some "pU" then (st, expect "parse-err" impl) else pushS st [] impl false)
+       else pushS st (denotedUci p t true) impl false)
+  | ["pS", s] | ["ps", s] =>
+    if finished then (st, expect "skip" impl) else
+    (match parseStr s with
+     | none => (st, "-")
+     | some t => pushS st (Spec.San.denotes p t) impl (step.head? == some "pS"))
+  | ["pl", s] =>
+    if finished then (st, expect "skip" impl) else
+    (match parseStr s with
+     | none => (st, "-")
+     | some t =>
+       let toks := Impl.splitAsciiWhitespace t
+       let rec go (c : SChain) (ts : List (List Nat)) (pos : Nat) : SChain × Option Nat :=
+         match ts with
+         | [] => (c, none)
+         | tk :: rest =>
+           let d := if tk == [48, 48, 48, 48] || !uciLanguage tk then [] else denotedUci c.pos tk true
+           match d with
+           | [m] => go { c with moves := c.moves ++ [m] } rest (pos + 1)
+           | _ => (c, some pos)
+       let (c', fail) := go ch toks 0
+       match fail with
+       | none => ({ st with cur := c' }, expect "ok" impl)
+       | some pos => ({ st with cur := c' }, if impl.startsWith s!"err@{pos}:" then ok else bad s!"expected err@{pos}"))
+  | ["pop"] =>
+    (match ch.moves.getLast? with
+     | none => (st, expect "none" impl)
+     | some m => ({ st with cur := { ch with moves := ch.moves.dropLast, outcome := none } },
+                  expect (fmtMove (concMove m)) impl))
+  | ["so", o] =>
+    if finished then (st, expect "skip" impl) else
+    (match parseOutcome o with
+     | some (some oc) => ({ st with cur := { ch with outcome := some oc } }, expect "ok" impl)
+     | _ => (st, "-"))
+  | ["co"] => ({ st with cur := { ch with outcome := none } }, expect "ok" impl)
+  | ["ro", o] =>
+    (match parseOutcome o with
+     | some oc => ({ st with cur := { ch with outcome := oc } }, expect "ok" impl)
+     | none => (st, "-"))
+  | ["calc"] =>
+    let allowed := (Spec.chainOutcomes ch.start ch.moves).map fmtSpecOutcome
+    (st, if allowed.contains impl then ok else bad s!"calc: allowed={allowed}")
+  | ["auto", f] =>
+    if finished then (st, expect "skip" impl) else
+    (match filterOfStr f with
+     | none => (st, "-")
+     | some f =>
+       let allowed := Spec.chainOutcomes ch.start ch.moves
+       let passing := allowed.filter fun o => match o with | some oc => Spec.passes oc (specFilter f) | none => false
+       if passing.isEmpty then (st, expect "none" impl)
+       else match specOutcomeOfStr impl with
+         | some (some oc) =>
+           if passing.contains (some oc) then ({ st with cur := { ch with outcome := some (implOutcomeOfSpec oc) } }, ok)
+           else (st, bad s!"auto: allowed={passing.map fmtSpecOutcome}")
+         | _ => (st, bad s!"auto: allowed={passing.map fmtSpecOutcome}"))
+  | ["st"] => (st, expect (stS ch) impl)
+  | ["uci"] =>
+    (st, expect (fmtStr ((ch.moves.map Spec.Uci.write).foldl (fun (acc : List Nat × Bool) t =>
+      ((if acc.2 then acc.1 else acc.1 ++ [32]) ++ t, false)) ([], true)).1) impl)
+  | ["rebuild"] => (st, expect "eq=1" impl)
+  | ["sty", n, s, g] =>
+    (match numPolicyOfStr n, styleOfStr s with
+     | some n, some s =>
+       let n' : Spec.NumPolicy := match n with | .omit => .omit | .fromBoard => .fromBoard | .custom k => .custom k
+       let s' : Spec.TextStyle := match s with | .san => .san | .sanUtf8 => .sanFig | .uci => .uci
+       let status := if g == "s" then some (winnerOf ch.outcome) else none
+       (st, expect (fmtStr (Spec.render ch.start ch.moves n' s' status)) impl)
+     | _, _ => (st, "-"))
+  | ["w", letters] => (st, expect (walkS ch letters) impl)
+  | ["clone"] => ({ st with other := some ch }, expect "ok" impl)
+  | ["swap"] =>
+    (match st.other with
+     | some o => ({ cur := o, other := some ch }, expect "ok" impl)
+     | none => (st, expect "n/a" impl))
+  | ["eq"] =>
+    (match st.other with
+     | some o =>
+       let same := decide (o.start = ch.start) && decide (o.moves = ch.moves) && decide (o.outcome = ch.outcome)
+       (st, expect (if same then "==" else "!=") impl)
+     | none => (st, expect "n/a" impl))
+  | _ => (st, "-")
+
+def chainS (raw : Impl.RawBoard) (steps : List (List String)) (impl : String) : String :=
+  match specPos? raw with
+  | none => expect "invalid" impl
+  | some p =>
+    if steps.isEmpty then "-" else
+    let obs := impl.splitOn ";"
+    if obs.length ≠ steps.length then bad "number of observations differs from number of steps" else
+    let (_, verdict, _) := (steps.zip obs).foldl (fun (acc : SState × Option String × Nat) so =>
+      match acc.2.1 with
+      | some _ => acc
+      | none =>
+        let (st', v) := stepS acc.1 so.1 so.2
+        if v.startsWith "bad" then (st', some s!"step {acc.2.2} ({String.intercalate " " so.1}): {v}", acc.2.2 + 1)
+        else (st', none, acc.2.2 + 1)) ({ cur := { start := p, moves := [], outcome := none }, other := none }, none, 0)
+    match verdict with
+    | some v => "bad " ++ v
+    | none => ok
+
+def opChain (args : List String) (impl : String) : String × String :=
+  match parseRaw args with
+  | none => ("badop", "-")
+  | some (raw, rest) =>
+    let steps := splitSteps rest
+    (chainM raw steps, chainS raw steps impl)
 
 end Owl.Drv
